@@ -7,6 +7,8 @@ import Oracle.Util
    ret vol <limitGB> <counter> <segs>         → del=<sorted keys marked by the volume pass | ->
    ret int <cut> <nowMs> <hours> <segs>       → blob=… files=… mem=… pq=<pqid>/<key>,… sm=…   final store after a pass cut
                                                  after <cut> micro-steps followed by a full pass (initially every seg is in every store)
+   ret rec <nowMs> <hours> <segs> <recs>      → h=<horizon> del=<victims> pq=<pqid>/<key>,…   the empty-PQ meta files after a full pass followed by the
+                                                 records <recs> ::= - | <pqid>/<key>,…  (BulkAddEmptyResults; a key outside <segs> = a segment rotated after the pass)
    ret e2e <hours> <segs>                     → same as `ret time` with now = 2000000000000 (kind l only; latest = offset from now, see harness)
    suite "retsm" (the segmeta.json rewrite):
    sm <file> <steps>    → ret=<r>,<r>… file=<missing | number of lines> h=<hash of the lines' uids> head=<≤5 uids> tail=<≤3 uids> rd=<entries ReadLocalSegmeta finds>:<hash>
@@ -110,6 +112,32 @@ def retInt (args : List String) : String :=
       let s1 := passCut deleteOrder now hrs s0 cut
       let s2 := pass deleteOrder now hrs s1
       s!"blob={showKeys s2.blob} files={showKeys s2.files} mem={showKeys s2.memMeta} pq={showPq s2.pqMeta} sm={showKeys (s2.segmetaJson.map (·.key))}"
+    | _, _, _, _ => "bad-op"
+  | _ => "bad-op"
+
+def parseRecs (s : String) : Option (List (Nat × Nat)) :=
+  if s = "-" then some [] else
+  (s.splitOn ",").mapM (fun t =>
+    match t.splitOn "/" with
+    | [p, k] =>
+      match natLt p 1000, natLt k two32 with
+      | some p, some k => some (p, k)
+      | _, _ => none
+    | _ => none)
+
+def retRec (args : List String) : String :=
+  match args with
+  | [now, hrs, segs, recs] =>
+    match natLt now nowBound, hours? hrs, parseSegs segs, parseRecs recs with
+    | some now, some hrs, some segs, some recs =>
+      if segs.any (fun p => p.1.kind == .metrics) then "bad-op" else
+      let ms := segs.map (·.1)
+      let ks := ms.map (·.key)
+      let pqe := segs.flatMap (fun p => p.2.map (fun q => (q, p.1.key)))
+      let s0 : Store := { blob := ks, files := ks, memMeta := ks, pqMeta := pqe, segmetaJson := ms, sfmPq := pqe }
+      let s1 := pass deleteOrder now hrs s0
+      let s2 := recordAll s1 recs
+      s!"h={horizon now hrs} del={showKeys ((victims now hrs 0 ms).map (·.key))} pq={showPq s2.pqMeta}"
     | _, _, _, _ => "bad-op"
   | _ => "bad-op"
 
@@ -334,6 +362,7 @@ def handle (cmd : String) (args : List String) : Option String :=
   | "ret", "time" :: r => some (retTime r)
   | "ret", "vol" :: r => some (retVol r)
   | "ret", "int" :: r => some (retInt r)
+  | "ret", "rec" :: r => some (retRec r)
   | "ret", "e2e" :: r => some (retE2E r)
   | "ret", _ => some "bad-op"
   | "sm", r => some (retSm r)
